@@ -221,13 +221,20 @@ class Tracer:
             self._enter_strict()
 
     def _enter_strict(self):
+        import decimal
         import warnings
 
         import numpy as np
 
-        self._saved_strict = (np.geterr(), warnings.filters[:])
-        np.seterr(**Tracer.strict)
-        warnings.simplefilter('error')
+        cfg = Tracer.strict
+        self._saved_strict = (np.geterr(), warnings.filters[:], decimal.getcontext().copy(), np.get_printoptions())
+        if 'decimal_prec' in cfg:
+            # the caller's other process-wide state: a coarse decimal context (numpy's print mode is left alone:
+            # C14 promises numbers 'to printed precision' only, and C15 drives the print options itself)
+            decimal.getcontext().prec = cfg['decimal_prec']
+        else:
+            np.seterr(**cfg)
+            warnings.simplefilter('error')
 
     def _leave_strict(self):
         saved = getattr(self, '_saved_strict', None)
@@ -237,8 +244,17 @@ class Tracer:
 
         import numpy as np
 
+        import decimal
+
         np.seterr(**saved[0])
         warnings.filters[:] = saved[1]
+        decimal.setcontext(saved[2])
+        po = dict(saved[3])
+        po['legacy'] = po.get('legacy') or False
+        try:
+            np.set_printoptions(**po)
+        except Exception:  # noqa: BLE001
+            np.set_printoptions(legacy=False)
         try:
             warnings._filters_mutated()
         except AttributeError:
